@@ -296,6 +296,43 @@ func runC08(c *Ctx, r *Report) {
 		}
 		return true
 	})
+	// the link lists reach the setters as they were decoded: an empty list stays an empty list and an absent one
+	// stays absent (the codec writes the two differently, so a reshaped list re-encodes to another identifier)
+	r.Doc("R-C08.13", "the decoded link lists are handed to the entry as they are — the field itself or slices.Clone of it, never append(nil-or-empty, list...), which turns an empty list into an absent one or the reverse")
+	nlist := 0
+	walkNoLit(rdr.Body, func(n ast.Node) bool {
+		call, ok := n.(*ast.CallExpr)
+		if !ok || len(call.Args) != 1 {
+			return true
+		}
+		se, ok := ast.Unparen(call.Fun).(*ast.SelectorExpr)
+		if !ok || (se.Sel.Name != "SetNext" && se.Sel.Name != "SetRefs") {
+			return true
+		}
+		nlist++
+		arg := ast.Unparen(call.Args[0])
+		if id, isID := arg.(*ast.Ident); isID {
+			if d := p.SoleDef(rdr, p.ObjOf(rdr, id)); d != nil {
+				arg = ast.Unparen(d)
+			}
+		}
+		reshaped := ""
+		if c2, isCall := arg.(*ast.CallExpr); isCall && p.Builtin(rdr, c2) == "append" && len(c2.Args) == 2 && c2.Ellipsis.IsValid() && emptySliceExpr(p, rdr, c2.Args[0]) {
+			if isNilIdent(c2.Args[0]) || func() bool {
+				cv, isConv := ast.Unparen(c2.Args[0]).(*ast.CallExpr)
+				return isConv && len(cv.Args) == 1 && isNilIdent(cv.Args[0])
+			}() {
+				reshaped = "an empty list decodes to an absent (nil) one"
+			} else {
+				reshaped = "an absent list decodes to an empty one"
+			}
+		}
+		r.Check(reshaped == "", "R-C08.13", r.Key("R-C08.13", rdr, "list-as-decoded", strings.TrimPrefix(se.Sel.Name, "Set")), call.Pos(),
+			"the decoded list is handed on as it is",
+			fmt.Sprintf("`%s`: %s — the codec writes `[]` and `null` differently, so the decoded entry re-encodes to another identifier than the block it was read from", types.ExprString(call), reshaped))
+		return true
+	})
+	r.Floor("R-C08.13", "link lists handed to the decoded entry", nlist, 2)
 	for _, want := range []string{"V", "LogID", "Key", "Sig", "Next", "Refs", "Clock", "Payload", "Identity"} {
 		r.Check(setters[want], "R-C08.2", r.Key("R-C08.2", rdr, "setter", want), rdr.Body.Pos(), "the decoded "+want+" is stored into the entry", "Entry.ToPlain never calls Set"+want+": the decoded entry loses that field")
 	}
